@@ -1,0 +1,404 @@
+//! Verification seams, compiled only with `--cfg okane_verif`.
+//!
+//! A file opts in with `#[cfg(okane_verif)] use crate::verif::std;` (and/or `glob`),
+//! which shadows the extern crate for every `std::...` path written in that file.
+//! The shadow modules re-export the real crates and replace only the few items that
+//! touch the outside world (hash seeds, file system, directory walk), routing them to
+//! a simulator installed in a thread-local. With no simulator installed they behave
+//! exactly like the real items.
+
+use ::std::cell::{Cell, RefCell};
+use ::std::path::{Path, PathBuf};
+use ::std::rc::Rc;
+
+/// What the simulator provides in place of the operating system.
+pub trait World {
+    fn canonicalize(&self, path: &Path) -> ::std::io::Result<PathBuf>;
+    fn read_to_string(&self, path: &Path) -> ::std::io::Result<String>;
+    fn open(&self, path: &Path) -> ::std::io::Result<Box<dyn ::std::io::Read>>;
+    /// Returns paths matching `pattern`, in whatever order the simulated
+    /// file system enumerates them.
+    fn glob(
+        &self,
+        pattern: &str,
+        options: ::glob::MatchOptions,
+    ) -> Result<Vec<PathBuf>, ::glob::PatternError>;
+    /// Simulated local calendar date.
+    fn today(&self) -> ::chrono::NaiveDate;
+}
+
+thread_local! {
+    static WORLD: RefCell<Option<Rc<dyn World>>> = const { RefCell::new(None) };
+    static HASH_SEED: Cell<Option<(u64, u64)>> = const { Cell::new(None) };
+}
+
+/// Installs the simulated world for the current thread. `None` restores the real OS.
+pub fn set_world(world: Option<Rc<dyn World>>) {
+    WORLD.with(|w| *w.borrow_mut() = world);
+}
+
+/// Returns the currently installed world.
+pub fn world() -> Option<Rc<dyn World>> {
+    WORLD.with(|w| w.borrow().clone())
+}
+
+/// Sets the hash seed of the simulated process (and resets the per-map counter).
+/// `None` restores real random keys.
+pub fn set_hash_seed(seed: Option<u64>) {
+    HASH_SEED.with(|h| h.set(seed.map(|s| (s, 0))));
+}
+
+fn splitmix64(mut x: u64) -> u64 {
+    x = x.wrapping_add(0x9E37_79B9_7F4A_7C15);
+    let mut z = x;
+    z = (z ^ (z >> 30)).wrapping_mul(0xBF58_476D_1CE4_E5B9);
+    z = (z ^ (z >> 27)).wrapping_mul(0x94D0_49BB_1331_11EB);
+    z ^ (z >> 31)
+}
+
+/// `BuildHasher` whose keys come from the simulator. Like `RandomState`,
+/// every map created in one process gets different keys; unlike it, the keys are a
+/// function of the installed seed.
+#[derive(Clone, Debug)]
+pub struct SimState {
+    k0: u64,
+    k1: u64,
+}
+
+impl Default for SimState {
+    fn default() -> Self {
+        match HASH_SEED.with(|h| {
+            let cur = h.get();
+            if let Some((seed, n)) = cur {
+                h.set(Some((seed, n + 1)));
+            }
+            cur
+        }) {
+            Some((seed, n)) => {
+                let k0 = splitmix64(seed ^ splitmix64(n));
+                let k1 = splitmix64(k0);
+                SimState { k0, k1 }
+            }
+            None => {
+                use ::std::hash::{BuildHasher, Hasher};
+                let r = ::std::collections::hash_map::RandomState::new();
+                let k0 = r.build_hasher().finish();
+                let mut h = r.build_hasher();
+                h.write_u8(1);
+                SimState {
+                    k0,
+                    k1: h.finish(),
+                }
+            }
+        }
+    }
+}
+
+impl ::std::hash::BuildHasher for SimState {
+    #[allow(deprecated)]
+    type Hasher = ::std::hash::SipHasher;
+
+    #[allow(deprecated)]
+    fn build_hasher(&self) -> Self::Hasher {
+        ::std::hash::SipHasher::new_with_keys(self.k0, self.k1)
+    }
+}
+
+/// Shadow of the `std` crate.
+pub mod std {
+    pub use ::std::*;
+
+    pub mod collections {
+        pub use ::std::collections::*;
+
+        pub use super::super::map::{HashMap, HashSet};
+    }
+
+    pub mod fs {
+        pub use ::std::fs::*;
+
+        use ::std::io;
+        use ::std::path::{Path, PathBuf};
+
+        pub fn canonicalize<P: AsRef<Path>>(path: P) -> io::Result<PathBuf> {
+            match super::super::world() {
+                Some(w) => w.canonicalize(path.as_ref()),
+                None => ::std::fs::canonicalize(path),
+            }
+        }
+
+        pub fn read_to_string<P: AsRef<Path>>(path: P) -> io::Result<String> {
+            match super::super::world() {
+                Some(w) => w.read_to_string(path.as_ref()),
+                None => ::std::fs::read_to_string(path),
+            }
+        }
+
+        /// Read-only stand-in of [`::std::fs::File`].
+        pub enum File {
+            Real(::std::fs::File),
+            Sim(Box<dyn io::Read>),
+        }
+
+        impl File {
+            pub fn open<P: AsRef<Path>>(path: P) -> io::Result<File> {
+                match super::super::world() {
+                    Some(w) => w.open(path.as_ref()).map(File::Sim),
+                    None => ::std::fs::File::open(path).map(File::Real),
+                }
+            }
+        }
+
+        impl io::Read for File {
+            fn read(&mut self, buf: &mut [u8]) -> io::Result<usize> {
+                match self {
+                    File::Real(f) => f.read(buf),
+                    File::Sim(f) => f.read(buf),
+                }
+            }
+        }
+    }
+}
+
+/// Shadow of the `glob` crate: only the directory walk is replaced.
+pub mod glob {
+    pub use ::glob::*;
+
+    use ::std::path::PathBuf;
+
+    pub enum SimPaths {
+        Real(::glob::Paths),
+        Sim(::std::vec::IntoIter<PathBuf>),
+    }
+
+    impl Iterator for SimPaths {
+        type Item = Result<PathBuf, ::glob::GlobError>;
+
+        fn next(&mut self) -> Option<Self::Item> {
+            match self {
+                SimPaths::Real(p) => p.next(),
+                SimPaths::Sim(p) => p.next().map(Ok),
+            }
+        }
+    }
+
+    pub fn glob_with(
+        pattern: &str,
+        options: ::glob::MatchOptions,
+    ) -> Result<SimPaths, ::glob::PatternError> {
+        match super::world() {
+            Some(w) => w.glob(pattern, options).map(|v| SimPaths::Sim(v.into_iter())),
+            None => ::glob::glob_with(pattern, options).map(SimPaths::Real),
+        }
+    }
+}
+
+/// Shadow of the `chrono` crate: only `Local::now()` is replaced.
+pub mod chrono {
+    pub use ::chrono::*;
+
+    pub struct Local;
+
+    pub enum SimNow {
+        Real(::chrono::DateTime<::chrono::Local>),
+        Sim(::chrono::NaiveDate),
+    }
+
+    impl SimNow {
+        pub fn date_naive(&self) -> ::chrono::NaiveDate {
+            match self {
+                SimNow::Real(x) => x.date_naive(),
+                SimNow::Sim(x) => *x,
+            }
+        }
+    }
+
+    impl Local {
+        pub fn now() -> SimNow {
+            match super::world() {
+                Some(w) => SimNow::Sim(w.today()),
+                None => SimNow::Real(::chrono::Local::now()),
+            }
+        }
+    }
+}
+
+pub mod map {
+    use ::std::borrow::Borrow;
+    use ::std::collections::hash_map;
+    use ::std::fmt;
+    use ::std::hash::Hash;
+    use ::std::ops::{Deref, DerefMut};
+
+    use super::SimState;
+
+    /// `HashMap` whose iteration order is decided by the simulator.
+    pub struct HashMap<K, V>(::std::collections::HashMap<K, V, SimState>);
+
+    impl<K, V> HashMap<K, V> {
+        pub fn new() -> Self {
+            HashMap(::std::collections::HashMap::with_hasher(SimState::default()))
+        }
+
+        pub fn with_capacity(n: usize) -> Self {
+            HashMap(::std::collections::HashMap::with_capacity_and_hasher(
+                n,
+                SimState::default(),
+            ))
+        }
+    }
+
+    impl<K, V> Default for HashMap<K, V> {
+        fn default() -> Self {
+            Self::new()
+        }
+    }
+
+    impl<K, V> Deref for HashMap<K, V> {
+        type Target = ::std::collections::HashMap<K, V, SimState>;
+
+        fn deref(&self) -> &Self::Target {
+            &self.0
+        }
+    }
+
+    impl<K, V> DerefMut for HashMap<K, V> {
+        fn deref_mut(&mut self) -> &mut Self::Target {
+            &mut self.0
+        }
+    }
+
+    impl<K: Clone, V: Clone> Clone for HashMap<K, V> {
+        fn clone(&self) -> Self {
+            HashMap(self.0.clone())
+        }
+    }
+
+    impl<K: fmt::Debug, V: fmt::Debug> fmt::Debug for HashMap<K, V> {
+        fn fmt(&self, f: &mut fmt::Formatter<'_>) -> fmt::Result {
+            self.0.fmt(f)
+        }
+    }
+
+    impl<K: Eq + Hash, V: PartialEq> PartialEq for HashMap<K, V> {
+        fn eq(&self, other: &Self) -> bool {
+            self.0 == other.0
+        }
+    }
+
+    impl<K: Eq + Hash, V: Eq> Eq for HashMap<K, V> {}
+
+    impl<K: Eq + Hash, V> FromIterator<(K, V)> for HashMap<K, V> {
+        fn from_iter<T: IntoIterator<Item = (K, V)>>(iter: T) -> Self {
+            let mut m = Self::new();
+            m.0.extend(iter);
+            m
+        }
+    }
+
+    impl<K: Eq + Hash, V> Extend<(K, V)> for HashMap<K, V> {
+        fn extend<T: IntoIterator<Item = (K, V)>>(&mut self, iter: T) {
+            self.0.extend(iter)
+        }
+    }
+
+    impl<K, V> IntoIterator for HashMap<K, V> {
+        type Item = (K, V);
+        type IntoIter = hash_map::IntoIter<K, V>;
+
+        fn into_iter(self) -> Self::IntoIter {
+            self.0.into_iter()
+        }
+    }
+
+    impl<'a, K, V> IntoIterator for &'a HashMap<K, V> {
+        type Item = (&'a K, &'a V);
+        type IntoIter = hash_map::Iter<'a, K, V>;
+
+        fn into_iter(self) -> Self::IntoIter {
+            self.0.iter()
+        }
+    }
+
+    impl<'a, K, V> IntoIterator for &'a mut HashMap<K, V> {
+        type Item = (&'a K, &'a mut V);
+        type IntoIter = hash_map::IterMut<'a, K, V>;
+
+        fn into_iter(self) -> Self::IntoIter {
+            self.0.iter_mut()
+        }
+    }
+
+    impl<K, Q: ?Sized, V> ::std::ops::Index<&Q> for HashMap<K, V>
+    where
+        K: Eq + Hash + Borrow<Q>,
+        Q: Eq + Hash,
+    {
+        type Output = V;
+
+        fn index(&self, key: &Q) -> &V {
+            self.0.index(key)
+        }
+    }
+
+    /// `HashSet` whose iteration order is decided by the simulator.
+    pub struct HashSet<T>(::std::collections::HashSet<T, SimState>);
+
+    impl<T> HashSet<T> {
+        pub fn new() -> Self {
+            HashSet(::std::collections::HashSet::with_hasher(SimState::default()))
+        }
+    }
+
+    impl<T> Default for HashSet<T> {
+        fn default() -> Self {
+            Self::new()
+        }
+    }
+
+    impl<T> Deref for HashSet<T> {
+        type Target = ::std::collections::HashSet<T, SimState>;
+
+        fn deref(&self) -> &Self::Target {
+            &self.0
+        }
+    }
+
+    impl<T> DerefMut for HashSet<T> {
+        fn deref_mut(&mut self) -> &mut Self::Target {
+            &mut self.0
+        }
+    }
+
+    impl<T: fmt::Debug> fmt::Debug for HashSet<T> {
+        fn fmt(&self, f: &mut fmt::Formatter<'_>) -> fmt::Result {
+            self.0.fmt(f)
+        }
+    }
+
+    impl<T: Eq + Hash> FromIterator<T> for HashSet<T> {
+        fn from_iter<I: IntoIterator<Item = T>>(iter: I) -> Self {
+            let mut s = Self::new();
+            s.0.extend(iter);
+            s
+        }
+    }
+
+    impl<T> IntoIterator for HashSet<T> {
+        type Item = T;
+        type IntoIter = ::std::collections::hash_set::IntoIter<T>;
+
+        fn into_iter(self) -> Self::IntoIter {
+            self.0.into_iter()
+        }
+    }
+
+    impl<'a, T> IntoIterator for &'a HashSet<T> {
+        type Item = &'a T;
+        type IntoIter = ::std::collections::hash_set::Iter<'a, T>;
+
+        fn into_iter(self) -> Self::IntoIter {
+            self.0.iter()
+        }
+    }
+}
